@@ -269,23 +269,31 @@ def val_eq(a, b):
     return False
 
 
-def restrict(v, c, pol):
-    """Simplify v under the assumption that condition c has truth value pol."""
+def restrict(v, c, pol, memo=None):
+    """Simplify v under the assumption that condition c has truth value pol (identity-preserving, memoised over shared sub-trees)."""
+    if not isinstance(v, (Ite, Struct, Tuple, Array)):
+        return v
+    if memo is None:
+        memo = {}
+    key = id(v)
+    hit = memo.get(key)
+    if hit is not None:
+        return hit[1]
     if isinstance(v, Ite):
         if v.c == c:
-            return restrict(v.t if pol else v.f, c, pol)
-        t = restrict(v.t, c, pol)
-        f = restrict(v.f, c, pol)
-        if t is v.t and f is v.f:
-            return v
-        return mk_ite_c(v.c, t, f)
-    if isinstance(v, Struct):
-        return Struct(v.path, {k: restrict(x, c, pol) for k, x in v.fields.items()})
-    if isinstance(v, Tuple):
-        return Tuple([restrict(x, c, pol) for x in v.items])
-    if isinstance(v, Array):
-        return Array([restrict(x, c, pol) for x in v.items])
-    return v
+            r = restrict(v.t if pol else v.f, c, pol, memo)
+        else:
+            t = restrict(v.t, c, pol, memo)
+            f = restrict(v.f, c, pol, memo)
+            r = v if (t is v.t and f is v.f) else mk_ite_c(v.c, t, f)
+    elif isinstance(v, Struct):
+        nf = {k: restrict(x, c, pol, memo) for k, x in v.fields.items()}
+        r = v if all(nf[k] is v.fields[k] for k in nf) else Struct(v.path, nf)
+    else:
+        ni = [restrict(x, c, pol, memo) for x in v.items]
+        r = v if all(a is b for a, b in zip(ni, v.items)) else type(v)(ni)
+    memo[key] = (v, r)  # keep v alive so the id stays unique
+    return r
 
 
 def mk_ite_c(c, t, f):
